@@ -239,8 +239,10 @@ class Walker:
         max_depth: int = 4,
         unroll: int = 2,
         exact_loops: bool = False,
+        store_hook: Callable[[ast.AST, AVal, "State"], None] = None,
     ):
         self.prog = prog
+        self.store_hook = store_hook
         self.resolver = resolver or Resolver(prog)
         self.assumptions = assumptions or {}
         self.inline = inline or (lambda f, t, d: False)
@@ -443,6 +445,8 @@ class Walker:
         elif isinstance(target, (ast.Attribute, ast.Subscript)):
             self._kill(st, target)
             st.facts[norm(target)] = val
+            if self.store_hook is not None:
+                self.store_hook(target, val, st)
             ev = Event("assign", node or target, norm(target), self.frame, val)
             ev.defs = dict(st.defs)
             st.add(ev)
@@ -1177,6 +1181,54 @@ class Walker:
             parts.append(g.iter)
         def cont(vals, s):
             s2 = s
+            if self.exact_loops and len(node.generators) == 1 and not isinstance(node, (ast.DictComp, ast.GeneratorExp)) \
+                    and vals[0].kind == "const" and isinstance(vals[0].value, (list, tuple, str, bytes)) \
+                    and len(vals[0].value) <= 64 and not node.generators[0].is_async:
+                # evaluator mode: the comprehension over a known sequence is computed element by element
+                g = node.generators[0]
+                items = list(vals[0].value)
+                outs = [([], s2)]
+                ok = True
+                for it in items:
+                    nxt = []
+                    for acc, cur in outs:
+                        cur = cur.copy()
+                        self._bind(cur, g.target, Const(it), node)
+                        keep = [(True, cur)]
+                        for cond in g.ifs:
+                            k2 = []
+                            for flag, c in keep:
+                                for kind, v, c2 in self.eval(cond, c):
+                                    if kind != "val":
+                                        ok = False
+                                        continue
+                                    t = truth(v)
+                                    if t is None:
+                                        ok = False
+                                    k2.append((flag and bool(t), c2))
+                            keep = k2
+                        for flag, c in keep:
+                            if not flag:
+                                nxt.append((acc, c))
+                                continue
+                            for kind, v, c2 in self.eval(node.elt, c):
+                                if kind != "val" or v.kind != "const":
+                                    ok = False
+                                    continue
+                                nxt.append((acc + [v.value], c2))
+                    outs = nxt
+                    if not ok or len(outs) > 16:
+                        ok = False
+                        break
+                if ok and outs:
+                    res = []
+                    for acc, c in outs:
+                        try:
+                            val = Const(set(acc)) if isinstance(node, ast.SetComp) else Const(list(acc))
+                        except TypeError:
+                            val = UNK
+                        res.append(("val", val, c))
+                    return res
             for g in node.generators:
                 self._bind(s2, g.target, UNK, node)
             inner = []
@@ -1298,6 +1350,14 @@ class Walker:
             except ValueError:
                 s.add(Event("raise", node, "ValueError", self.frame, "implicit"))
                 return [("raise", "ValueError", s)]
+            except Exception:
+                pass
+        if name in ("html.escape", "html.unescape") and args and all(a.kind == "const" for a in args) and all(v.kind == "const" for v in kws.values()) \
+                and isinstance(args[0].value, str):
+            import html as _html
+
+            try:
+                return [("val", Const(getattr(_html, name.split(".")[-1])(*[a.value for a in args], **{k: v.value for k, v in kws.items()})), s)]
             except Exception:
                 pass
         if name in ("re.search", "re.match", "re.fullmatch") and len(args) == 2 and all(a.kind == "const" for a in args) and not kws \
@@ -1489,6 +1549,9 @@ def _binop(op, a, b) -> AVal:
         if isinstance(op, ast.Mult):
             return Const(a * b)
         if isinstance(op, ast.Mod) and not isinstance(a, (str, bytes)):
+            return Const(a % b)
+        if isinstance(op, ast.Mod) and isinstance(a, (str, bytes)) and (isinstance(b, (str, bytes, int, float, bool, type(None)))
+                                                                      or (isinstance(b, tuple) and all(isinstance(x, (str, bytes, int, float, bool, type(None))) for x in b))):
             return Const(a % b)
         if isinstance(op, ast.FloorDiv):
             return Const(a // b)
